@@ -50,6 +50,15 @@ func c04Base(class string, seed uint64) *vfScenario {
 		// without f.map/f.loop the slicer's select coin (worker free vs cancelled) shows after a failure
 		sites |= 4
 	}
+	if !multi && rng.IntN(2) == 0 {
+		// callers may be held between sending a request and starting to wait for its reply. Like cc.send this
+		// site is keyed by the request id, and ids are drawn by whichever goroutine gets there first: with the
+		// helper goroutines of multi-chunk transfers running side by side after a fault that order is not ours.
+		sites |= 128
+	}
+	if !multi && rng.IntN(2) == 0 {
+		sites |= 256 | 16 // the receiver may be held inside broadcastErr, after notifying and before marking the connection closed
+	}
 	sc.Cfg["sites"] = sites
 	sc.Cfg["concr"] = int64(rng.IntN(2))
 	sc.Cfg["concw"] = int64(rng.IntN(2))
@@ -129,7 +138,7 @@ func c04Gen(class string, seed uint64, tier string) *vfScenario {
 	rng := vfRng(seed, 2)
 	slen, nwr := c04Golden(sc)
 	if class == "wrerr" {
-		sc.Faults = []vfFault{{K: "wrerr", At: int64(rng.IntN(nwr + 1)), A: int64(rng.IntN(3))}}
+		sc.Faults = []vfFault{{K: "wrerr", At: int64(rng.IntN(nwr + 1)), A: int64(rng.IntN(3)), B: int64(rng.IntN(3))}}
 		if rng.IntN(3) == 0 {
 			sc.Faults = append(sc.Faults, vfFault{K: "cut", At: int64(rng.IntN(slen + 1)), A: int64(rng.IntN(3))})
 		}
@@ -238,6 +247,7 @@ func c04Exec(r *vfRun) {
 		case "wrerr":
 			srv.c2s.wrFaultAt = baseWrites + int(f.At)
 			srv.c2s.wrShort = int(f.A) * 3
+			srv.c2s.wrErr = c13WrErrs[int(f.B)%len(c13WrErrs)] // io.EOF and io.ErrClosedPipe are what real transports return
 		}
 	}
 	// attribution of requests to (task, op): by the task's own handles / path prefix
